@@ -57,23 +57,26 @@ def evalRanges (ins outs : List String) : Verdict :=
 /-- the gossip handler's head `a` lands in the pending set the sync loop has just emptied (target a+1): no crash, the
     store ends at a+1, finished, error-free, nothing stale pending -/
 def evalEmptiedWindow (ins outs : List String) (storeOk : String → Nat → Nat → Option String) : Verdict :=
-  match kvNat? ins "a", kv? outs "start", kv? outs "parked", kv? outs "loop", kv? outs "gossip", kv? outs "head1", kvNat? outs "head",
-        kvNat? outs "target", kv? outs "pending", kvNat? outs "err", kvNat? outs "finished", kv? outs "stored", kvNat? outs "tail" with
-  | some a, some "ok", some parked, some lp, some gossip, some h1, some head, some target, some pending, some err, some fin, some stored, some tail =>
-    match storeOk stored head tail with
-    | some c => .prop c "emptiedwindow"
-    | none =>
-      if parked != "yes" || lp != "yes" then .bad s!"emptiedwindow: the schedule was not reached (parked={parked} loop={lp})" else
-      if gossip == "hang" || h1 == "hang" then .prop "c07_state_finished" s!"gossip={gossip} head1={h1}" else
-      if head != a + 1 then .prop "c07_reaches_target" s!"head={head} target={a + 1}" else
-      -- the same schedule on the model of the pending set: the target a+1 is removed, `a` is added to the emptied set, the loop looks again
-      let m := Ranges.run [] [.add (a + 1), .first, .removeFirst (a + 1), .add a, .first]
-      let g := match m with | r :: _ => get r (a + 1) | [] => []
-      if g != [a] then .bad s!"emptiedwindow: the model hands out {g}" else
-      if target != a + 1 || pending != "-" then .prop "c19_subjective_head_is_newest" s!"target={target} pending={pending} store head={head}" else
-      if err != 0 || fin != 1 then .prop "c07_state_finished" s!"err={err} finished={fin}" else .ok "emptiedwindow"
-  | _, some s, _, _, _, _, _, _, _, _, _, _, _ => .prop "c07_state_finished" s!"emptiedwindow start={s}"
-  | _, _, _, _, _, _, _, _, _, _, _, _, _ => .bad "emptiedwindow fields"
+  match kvNat? ins "a", kvNat? ins "b", kv? outs "start", kv? outs "parked", kv? outs "loop", kv? outs "gossip", kv? outs "head1", kv? outs "later" with
+  | some a, some b, some "ok", some parked, some lp, some gossip, some h1, some later =>
+    match kvNat? outs "head", kvNat? outs "target", kv? outs "pending", kvNat? outs "err", kvNat? outs "finished", kv? outs "stored", kvNat? outs "tail" with
+    | some head, some target, some pending, some err, some fin, some stored, some tail =>
+      match storeOk stored head tail with
+      | some c => .prop c "emptiedwindow"
+      | none =>
+        if parked != "yes" || lp != "yes" then .bad s!"emptiedwindow: the schedule was not reached (parked={parked} loop={lp})" else
+        if gossip == "hang" || h1 == "hang" then .prop "c07_state_finished" s!"gossip={gossip} head1={h1}" else
+        if later != "accept" then .prop "c03_valid_gossip_accepted" s!"the later head {b + 3} was refused" else
+        -- the same schedule on the model of the pending set: the target b is removed, `a` is added to the emptied set, the loop looks again
+        let m := Ranges.run [] [.add b, .first, .removeFirst b, .add a, .first]
+        let g := match m with | r :: _ => get r b | [] => []
+        if g != [a] then .bad s!"emptiedwindow: the model hands out {g}" else
+        if head != b + 3 then .prop "c07_reaches_target" s!"head={head}, newest accepted head {b + 3} (a={a}, b={b})" else
+        if target != b + 3 || pending != "-" then .prop "c19_subjective_head_is_newest" s!"target={target} pending={pending} store head={head}" else
+        if err != 0 || fin != 1 then .prop "c07_state_finished" s!"err={err} finished={fin}" else .ok (if a == b then "emptiedwindow-same" else "emptiedwindow")
+    | _, _, _, _, _, _, _ => .bad "emptiedwindow observation"
+  | _, _, some s, _, _, _, _, _ => .prop "c07_state_finished" s!"emptiedwindow start={s}"
+  | _, _, _, _, _, _, _, _ => .bad "emptiedwindow fields"
 
 /-- `Add(12)` split by the loop's `Remove(11)` (hooks ranges.add.read / sync.removed), then head 13 between the loop's next
     Get and Remove: every accepted head ends up in the Store -/
